@@ -629,6 +629,34 @@ pub fn shared_ids() -> Vec<u64> {
     g.shared.as_ref().map(|s| s.iter().copied().collect()).unwrap_or_default()
 }
 
+static BACKEND_POINTS: std::sync::atomic::AtomicBool = std::sync::atomic::AtomicBool::new(false);
+/// the storage backend as one shared object of the schedule
+const BACKEND_OBJECT: u64 = (0xFFu64 << 40) | 1;
+
+/// Scenarios about close(): every call that reaches the storage backend from a controlled thread
+/// becomes a scheduling point too (the window between redb's closed-flag check and the backend
+/// call has no synchronisation operation of its own)
+pub fn set_backend_points(on: bool) {
+    BACKEND_POINTS.store(on, std::sync::atomic::Ordering::Relaxed);
+    if on {
+        let s = sched();
+        let mut g = s.inner.lock().unwrap_or_else(|e| e.into_inner());
+        g.obj_names.insert(BACKEND_OBJECT, "storage-backend".into());
+    }
+}
+
+/// called by the in-memory backend at the start of every call
+pub fn backend_point() {
+    if !BACKEND_POINTS.load(std::sync::atomic::Ordering::Relaxed) {
+        return;
+    }
+    if let Some(s) = SCHED.get() {
+        if Sched::tid() != usize::MAX {
+            s.point(Pending::Atomic(BACKEND_OBJECT));
+        }
+    }
+}
+
 /// replaces the candidate set (replay)
 pub fn reset_shared(ids: &[u64]) {
     let s = sched();
